@@ -85,6 +85,14 @@ def rule_K1(ctx):
             if isinstance(n, ast.Name) and isinstance(n.ctx, ast.Load) and n.id not in locals_:
                 if n.id in module_vars:
                     bad.append("reads module-level variable " + n.id)
+        # the contents of a file are state outside the key as well: a memoised reader keyed on the path serves the
+        # contents the file had when it was first read (a trace truncated or rewritten since is summarised from memory)
+        for c in ast.walk(fi.node):
+            if isinstance(c, ast.Call):
+                cn = call_name(c)
+                last = cn.split(".")[-1]
+                if cn in ("open", "gzip.open", "gzip.GzipFile", "bz2.open", "lzma.open", "io.open", "np.load", "numpy.load", "np.loadtxt", "np.genfromtxt") or last in ("read_csv", "read_table", "read_pickle", "read_text", "read_bytes") or cn in ("pickle.load", "json.load"):
+                    bad.append("reads the file system (%s): the file's contents are not part of the key" % u(c)[:50])
         ctx.check(not bad, "K1", "%s: body reads only its key, locals and immutable module definitions" % fi.name, fi.where(), "; ".join(sorted(set(bad))), construct=fi.qualname, stmt="free reads")
         # (b) every parameter takes part in the key (lru_cache keys on all arguments; the np hashers on the array arguments)
         a = fi.node.args
@@ -579,6 +587,51 @@ def rule_K4(ctx):
         bad = [(n, w) for n, w in bad if not (id(n) in seen or seen.add(id(n)))]
         ctx.check(not bad, "K4", "%s never writes into its inputs" % f.name, f.where(bad[0][0]) if bad else f.where(), "; ".join("%s (%s)" % (w, u(n)[:60]) for n, w in bad), construct=f.qualname, stmt="in-place write to input")
         ctx.analysed(f)
+    # the value a memoised computation hands back is a fresh array: an `out=` destination (or a returned value) taken
+    # from module-level storage - a scratch block kept per shape, say - is one array shared by every call, so every
+    # cached entry aliases whatever the latest call wrote
+    def _module_storage(fi_, e, depth=0):
+        """Why `e` denotes module-level storage, or None."""
+        if isinstance(e, ast.Subscript):
+            e = e.value
+        if isinstance(e, ast.Name):
+            mod_vars = {t.id for st_ in fi_.module.tree.body if isinstance(st_, (ast.Assign, ast.AnnAssign)) for t in (st_.targets if isinstance(st_, ast.Assign) else [st_.target]) if isinstance(t, ast.Name)}
+            local = {x.id for x in ast.walk(fi_.node) if isinstance(x, ast.Name) and isinstance(x.ctx, ast.Store)} | set(fi_.params)
+            if e.id in mod_vars and e.id not in local:
+                return "module-level %s" % e.id
+            if e.id in local and depth < 3:
+                for st_ in ast.walk(fi_.node):
+                    if isinstance(st_, ast.Assign) and any(isinstance(t, ast.Name) and t.id == e.id for t in st_.targets):
+                        w = _module_storage(fi_, st_.value, depth + 1)
+                        if w:
+                            return w
+            return None
+        if isinstance(e, ast.Call):
+            if isinstance(e.func, ast.Attribute) and e.func.attr in ("get", "setdefault", "pop") and isinstance(e.func.value, ast.Name):
+                return _module_storage(fi_, e.func.value, depth)
+            h = prog.resolve_function(e.func.id, fi_.module) if isinstance(e.func, ast.Name) else None
+            if h is not None and depth < 3:
+                for r_ in ast.walk(h.node):
+                    if isinstance(r_, ast.Return) and r_.value is not None:
+                        w = _module_storage(h, r_.value, depth + 1)
+                        if w:
+                            return "%s, handed out by %s" % (w, h.name)
+        return None
+
+    for f in bodies:
+        bad = []
+        for c in ast.walk(f.node):
+            if isinstance(c, ast.Call):
+                o = kwarg(c, "out")
+                if o is not None:
+                    w = _module_storage(f, o)
+                    if w:
+                        bad.append((c, "out= destination is %s" % w))
+            if isinstance(c, ast.Return) and c.value is not None:
+                w = _module_storage(f, c.value)
+                if w:
+                    bad.append((c, "returns %s" % w))
+        ctx.check(not bad, "K4", "%s computes into storage of its own (nothing kept at module level)" % f.name, f.where(bad[0][0]) if bad else f.where(), "; ".join("%s (%s)" % (w, u(n)[:60]) for n, w in bad) + ": one array shared by all calls, so cached results of earlier calls change when it is written again", construct=f.qualname, stmt="result in module-level storage")
     # callers of the array caches: the returned (shared, cached) array is never written
     for name in sorted(array_caches):
         for f in prog.functions.values():
@@ -734,6 +787,10 @@ _SA = "phyclone/smc/kernels/semi_adapted.py"
 _FA = "phyclone/smc/kernels/fully_adapted.py"
 _M = "phyclone/utils/math.py"
 SELFTEST = [
+    {"name": "K4-fft-result-in-module-level-scratch", "kind": "break", "rule": "K4", "edits": [
+        {"file": "phyclone/utils/math.py", "old": "def fft_convolve_two_children(child_1, child_2):\n", "new": "_SCRATCH = {}\n\n\ndef fft_convolve_two_children(child_1, child_2):\n"},
+        {"file": "phyclone/utils/math.py", "old": "    result = np.log(result, order=\"C\", dtype=np.float64)\n", "new": "    result = np.log(result, out=_SCRATCH.setdefault(result.shape, np.empty(result.shape)), order=\"C\", dtype=np.float64)\n"}]},
+    {"name": "benign-fft-result-in-local-scratch", "kind": "benign", "file": "phyclone/utils/math.py", "old": "    result = np.log(result, order=\"C\", dtype=np.float64)\n", "new": "    scratch = np.empty(result.shape, dtype=np.float64)\n    result = np.log(result, out=scratch, order=\"C\", dtype=np.float64)\n"},
     {"name": "K8-trace-started-in-default-argument", "kind": "break", "rule": "K8", "file": "phyclone/run.py", "old": "def setup_trace(timer, tree, tree_dist):\n    trace = []\n", "new": "def setup_trace(timer, tree, tree_dist, trace=[]):\n"},
     {"name": "benign-default-container-only-read", "kind": "benign", "file": "phyclone/run.py", "old": "def setup_trace(timer, tree, tree_dist):\n    trace = []\n", "new": "def setup_trace(timer, tree, tree_dist, initial=[]):\n    trace = list(initial)\n"},
     {"name": "K1-alpha-dropped-from-semi-cache", "kind": "break", "rule": "K1", "edits": [
